@@ -179,3 +179,53 @@ def rule_fill(prog):
 
 def run_all(prog):
     return [rule_mapped(prog), rule_fill(prog)]
+
+
+def rule_press_dedup(prog):
+    """R-PRESS-DEDUP (C04): keyberon can report one key code several times in one tick (e.g. `(multi lsft S-1)`); the OS
+    sees one press because the press loop (a) skips codes found in prev_keys and (b) records each code it handles in
+    prev_keys before pressing it."""
+    from kq.analysis import blocks_calling
+    from kq.core import callee_name
+    from rules.r_doaction import receiver_fields
+    res = RuleResult("R-PRESS-DEDUP", "a key code reported twice in one tick is pressed once", floor=2)
+    f = prog.fn("kanata_state_machine::kanata::Kanata::handle_keystate_changes")
+    res.fn(f)
+    presses = blocks_calling(f, f.reachable(), ["kanata_state_machine::kanata::output_logic::press_key"])
+    seqs = blocks_calling(f, f.reachable(), ["kanata_state_machine::kanata::sequences::do_sequence_press_logic"])
+    contains, pushes = [], []
+    for bi, t in f.calls():
+        cn = callee_name(t) or ""
+        fl = receiver_fields(f, t)
+        if fl and fl[-1] == "prev_keys":
+            if cn.endswith("::contains"):
+                contains.append((bi, t))
+            elif cn.endswith("Vec::push"):
+                pushes.append((bi, t))
+    res.inst("anchors", press_calls=len(presses), prev_keys_contains=len(contains), prev_keys_push=len(pushes))
+    if not presses:
+        res.viol("anchors", f.loc, "press loop not found")
+        return res
+    loop_calls = [(pb, pt) for (pb, pt) in presses + seqs if any(f.dominates(cb, pb) for cb, _ in contains)]
+    if not loop_calls:
+        res.viol("press-loop/not-skipped", f.loc, "no press of a current key code is preceded by a prev_keys.contains() test: codes "
+                 "already pressed (or reported twice in one tick) are pressed again")
+    for n, (pb, pt) in enumerate(loop_calls):
+        what = (callee_name(pt) or "").split("::")[-1]
+        skip_ok = False
+        for (cb, ct) in contains:
+            nb = ct["t"]
+            tt = f.term(nb) if nb is not None else None
+            if tt and tt["k"] == "switch" and f.dominates(cb, pb):
+                true_t = [tb for v, tb in tt["ts"] if v == 1] or ([tt["o"]] if any(v == 0 for v, _ in tt["ts"]) else [])
+                if true_t and pb not in f.reach_from(true_t[0], avoid=[nb, cb]):
+                    skip_ok = True
+        rec_ok = any(f.dominates(ub, pb) and any(f.dominates(cb, ub) for cb, _ in contains) for ub, _ in pushes)
+        ok = skip_ok and rec_ok
+        res.inst("%s#%d" % (what, n), skips_known_codes=skip_ok, records_code_first=rec_ok)
+        res.oblige(ok)
+        if not ok:
+            res.viol("%s/%s" % (what, "not-recorded" if skip_ok else "not-skipped"), "%s:%s" % (f.file, pt.get("ln")),
+                     "%s is reached for a key code without the code %s: a code that the layout reports twice in one tick is pressed "
+                     "twice at the OS" % (what, "having been pushed to prev_keys first" if skip_ok else "being checked against prev_keys"))
+    return res
